@@ -333,7 +333,7 @@ def materialise(case):
 
 
 TOOLRUNS = [("ovniemu", ["-l"]), ("ovniemu", ["-b"]), ("ovniemu", ["-a"]), ("ovniemu", ["-d"]), ("ovnidump", []), ("ovnidump", ["-x"]),
-            ("ovnitop", []), ("ovnisort", ["-c"]), ("ovnisort", []), ("ovnisort", ["-n", "3"])]
+            ("ovnitop", []), ("ovnisort", ["-c"]), ("ovnisort", []), ("ovnisort", ["-n", "3"]), ("ovnisort", ["-n", "1"]), ("ovnisort", ["-n", "0"])]
 
 
 def write_raw(raw, d):
